@@ -13,12 +13,24 @@
     fragmentSegment.createFormat / appendValue     → `fragFmt` (`%-Wd`: LEFT justified), `fragAppend` (without the total and without `0`:
                                                      `%0*d` with the trailing zeroes stripped, regexp `\A([0-9]+?)0*\z`)
     day/hour/minute/second/millisecond/nanosecondSegment.appendTo → `segValue` (Go's `/` and `%` truncate: `Int.tdiv`, `Int.tmod`)
-    utils/pow.go Int64Pow                          → `int64Pow` (0 for an exponent ≤ 0 — so the remainder `v %= Int64Pow(10, w)` of a
-                                                     nanosecond segment of width 0 that is not the total divides by zero: `none`, a Go fault)
+    utils/pow.go Int64Pow                          → `int64Pow10`
+  The code as it is after the repairs 03fcfad (Int64Pow(b, 0) = 1) and 5257aa1 (a width beyond fmt's limit 10^6 is a bad format
+  specifier) is `SpanCode.now`; the two repaired spots are switches of `SpanCode` so that the defects of the tree before them
+  (`SpanCode.before`: Int64Pow(10, 0) = 0, hence an integer division by zero for a remainder nanosecond segment of width 0; any width
+  reaches fmt) stay witnessed in Lean (`C20_span_…_before_fix`).
   Strings are sequences of Unicode scalar values.  Core-only file (linked into the driver).
 -/
 import Pcore.Model.Format
 namespace Pcore.Format
+
+/-- the two repaired spots of the code -/
+structure SpanCode where
+  powZeroIsOne : Bool      -- 03fcfad: utils.Int64Pow(b, 0) = 1 (was 0)
+  widthLimit : Bool        -- 5257aa1: parse rejects a width above maxFormatNumber
+  deriving DecidableEq, Repr
+
+def SpanCode.now : SpanCode := ⟨true, true⟩
+def SpanCode.before : SpanCode := ⟨false, false⟩
 
 inductive SegKind where
   | day | hour | minute | second | milli | nano
@@ -67,8 +79,13 @@ def letterKind (c : Char) : Option SegKind :=
   if c = 'D' then some .day else if c = 'H' then some .hour else if c = 'M' then some .minute
   else if c = 'S' then some .second else if c = 'L' then some .milli else if c = 'N' then some .nano else none
 
+/-- the width after one more digit -/
+def nextWidth : Option Nat → Nat → Nat
+  | none, n => n
+  | some w, n => w * 10 + n
+
 /-- one character of the format; `none` = badFormatSpecifier -/
-def spanStep (ps : PS) (c : Char) : Option PS :=
+def spanStep (code : SpanCode) (ps : PS) (c : Char) : Option PS :=
   if ps.state = .literal then
     if c = '%' then some { ps with state := .pad, pad := some '0', width := none }
     else some { ps with segs := appendLiteral ps.segs c }
@@ -89,11 +106,14 @@ def spanStep (ps : PS) (c : Char) : Option PS :=
       else if ps.state = .pad && c = '0' then some { ps with pad := some '0', state := .width }
       else
         let n := c.toNat - '0'.toNat
-        some { ps with width := some (match ps.width with | none => n | some w => w * 10 + n), state := .width }
+        let w' := nextWidth ps.width n
+        -- "the fmt package does not accept such a width"
+        if code.widthLimit && decide (w' > maxFormatNumber) then none
+        else some { ps with width := some w', state := .width }
 
-def spanSteps : PS → Str → Option PS
+def spanSteps (code : SpanCode) : PS → Str → Option PS
   | ps, [] => some ps
-  | ps, c :: cs => (spanStep ps c).bind (fun ps' => spanSteps ps' cs)
+  | ps, c :: cs => (spanStep code ps c).bind (fun ps' => spanSteps code ps' cs)
 
 /-- the segments of the highest unit show the total -/
 def markTotal (h : Nat) : List Seg → List Seg
@@ -102,14 +122,16 @@ def markTotal (h : Nat) : List Seg → List Seg
   | s :: rest => s :: markTotal h rest
 
 /-- `TimespanFormatParser.parse`; `none` = PCORE_TIMESPAN_BAD_FORMAT_SPEC -/
-def spanParse (s : Str) : Option (List Seg) :=
-  match spanSteps ⟨[], none, .literal, some '0', none⟩ s with
+def spanParseC (code : SpanCode) (s : Str) : Option (List Seg) :=
+  match spanSteps code ⟨[], none, .literal, some '0', none⟩ s with
   | none => none
   | some ps =>
     if ps.state ≠ .literal then none
     else match ps.highest with
       | none => some ps.segs
       | some h => some (markTotal h ps.segs)
+
+def spanParse (s : Str) : Option (List Seg) := spanParseC .now s
 
 /-! ### formatting -/
 
@@ -159,11 +181,11 @@ def fragAppend (v : VSeg) (n : Int) : Option Str :=
     else some (trimZeroes (goInteger ⟨false, true, false, false, false, some w, none, 'd'⟩ 10 false n))
   else fmtD (fragFmt v.pad w) n
 
-/-- `utils.Int64Pow(10, e)` for the exponents that occur: 0 when the exponent is not positive -/
-def int64Pow10 (e : Nat) : Int := if e = 0 then 0 else (10 : Int) ^ e
+/-- `utils.Int64Pow(10, e)` for the exponents that occur (before 03fcfad: 0 for the exponent 0) -/
+def int64Pow10 (code : SpanCode) (e : Nat) : Int := if e = 0 && !code.powZeroIsOne then 0 else (10 : Int) ^ e
 
 /-- the number a segment shows (Go's integer division and remainder truncate towards zero); `none` = integer divide by zero -/
-def segValue (v : VSeg) (ns : Int) : Option Int :=
+def segValue (code : SpanCode) (v : VSeg) (ns : Int) : Option Int :=
   match v.kind with
   | .day => some (ns.tdiv nsPerDay)
   | .hour => some (if v.useTotal then ns.tdiv nsPerHour else (ns.tdiv nsPerHour).tmod 24)
@@ -173,41 +195,44 @@ def segValue (v : VSeg) (ns : Int) : Option Int :=
   | .nano =>
     let w := v.width.getD 9
     if w < 9 then
-      let x := ns.tdiv (int64Pow10 (9 - w))
+      let x := ns.tdiv (int64Pow10 code (9 - w))
       if v.useTotal then some x
-      else if int64Pow10 w = 0 then none else some (x.tmod (int64Pow10 w))
+      else if int64Pow10 code w = 0 then none else some (x.tmod (int64Pow10 code w))
     else some (if v.useTotal then ns else ns.tmod nsPerSec)
 
 /-- `segment.appendTo` -/
-def segText (s : Seg) (ns : Int) : Option Str :=
+def segText (code : SpanCode) (s : Seg) (ns : Int) : Option Str :=
   match s with
   | .lit l => some l
   | .val v =>
-    match segValue v ns with
+    match segValue code v ns with
     | none => none
     | some n =>
       match v.kind with
       | .milli | .nano => fragAppend v n
       | _ => fmtD (valueFmt v.pad (v.width.getD v.kind.defaultWidth)) n
 
-def segsText : List Seg → Int → Option Str
+def segsText (code : SpanCode) : List Seg → Int → Option Str
   | [], _ => some []
   | s :: rest, ns =>
-    match segText s ns, segsText rest ns with
+    match segText code s ns, segsText code rest ns with
     | some a, some b => some (a ++ b)
     | _, _ => none
 
 /-- `TimespanFormat.format2` -/
-def spanFormat2 (segs : List Seg) (ns : Int) : SpanRes :=
+def spanFormat2 (code : SpanCode) (segs : List Seg) (ns : Int) : SpanRes :=
   let neg := decide (ns < 0) && decide (ns ≠ -9223372036854775808)
-  match segsText segs (if neg then -ns else ns) with
+  match segsText code segs (if neg then -ns else ns) with
   | some s => .text ((if neg then ['-'] else []) ++ s)
   | none => .fault
 
 /-- `Timespan.Format(format)` -/
-def spanFormat (fm : Str) (ns : Int) : SpanRes :=
-  match spanParse fm with
+def spanFormatC (code : SpanCode) (fm : Str) (ns : Int) : SpanRes :=
+  match spanParseC code fm with
   | none => .badSpec
-  | some segs => spanFormat2 segs ns
+  | some segs => spanFormat2 code segs ns
+
+/-- … of the code as it is now -/
+def spanFormat (fm : Str) (ns : Int) : SpanRes := spanFormatC .now fm ns
 
 end Pcore.Format
